@@ -4,6 +4,7 @@ CONSTANTS
   Emit = TRUE
   ChunkSize = 256
   ChunkStride = 1
+  Walk = FALSE
   Kinds = {"half", "float", "double", "x86_fp80", "fp128", "ppc_fp128"}
 INVARIANTS RoundTrip DoubleFormOK Inexact ReadIdem Preserved EmittedExtra
 CHECK_DEADLOCK FALSE
